@@ -9,7 +9,9 @@ def run(ctx):
     # E1: deadlock freedom with the time-out action removed, every kernel choice of futex waiters
     for cfg, lab in (('MC_idle_fq.cfg', 'schedule(FQ) into 2 parked workers'),
                      ('MC_idle_placed.cfg', 'schedulePlaced(FQ) (steal ring) into 2 parked workers'),
-                     ('MC_idle_rbulk_g4.cfg', 'ring fast path, 2 tasks, one group of 3 parked workers'))+ \
+                     ('MC_idle_rbulk_g4.cfg', 'ring fast path, 2 tasks, one group of 3 parked workers'),
+                     ('MC_idle_fq_rbulk.cfg', 'schedule(FQ), re-park, then the ring fast path into the claimed worker\'s ring'),
+                     ('MC_idle_fq_bulk.cfg', 'schedule(FQ), re-park, then scheduleBulk(1) through the central queue'))+ \
             ((('MC_idle_bulk.cfg', 'scheduleBulk(2) into 3 parked workers'),
               ('MC_idle_rbulk.cfg', 'ring fast path, 2 tasks, groups of 2'),
               ('MC_idle_placed3.cfg', 'schedulePlaced x2 into 3 parked workers')) if thorough else ()):
@@ -19,6 +21,10 @@ def run(ctx):
     scen = [(2, 'main:new2,idle,fq1,quiet,del'), (2, 'main:new3,idle,bulk1.2,quiet,del'),
             (4, 'main:new3,idle,rbulk1.2,quiet,del'), (2, 'main:new3,idle,rbulk1.3,quiet,del'),
             (4, 'main:new3,idle,bulk1.3,quiet,del'), (2, 'main:new1,idle,sched1,quiet,del')]
+    # a claimed-but-not-woken sleeper (its mask bit is cleared while it stays in the futex) followed by work for its ring /
+    # for the central queue
+    scen += [(2, 'main:new2,idle,fq1,quiet,idle,rbulk2.1,quiet,del'), (2, 'main:new2,idle,fq1,quiet,idle,bulk2.1,quiet,del'),
+             (4, 'main:new3,idle,fq1,quiet,idle,rbulk2.2,quiet,del')]
     scen += [(2, 'main:new2,idle,rbulk1.2,quiet,idle,pfq3,quiet,idle,placed4,quiet,del'), (2, 'main:new2,idle,pfq1,quiet,del'), (2, 'main:new3,idle,placed1,quiet,idle,pfq2,quiet,del')]
     if thorough:
         scen += [(4, 'main:new3,idle,rbulk1.1,quiet,del'), (2, 'main:new3,idle,rbulk1.2,quiet,del'),
